@@ -116,7 +116,7 @@ PROPS = {
               "deleted and expired resources) and each of 31 mutating operations (publish 1/3, create/delete/update topic and subscription, push config, ack, modack +/0, pull, pull that "
               "dead-letters, stream ack+nack, stream nack that dead-letters, stream modify-deadline, seek to time (rewind / forward) and to snapshot, create/delete snapshot, dead-letter sweep, "
               "7 prune/expire jobs): the operation is run fault-free under a counting database driver, then once per event index k (BEGIN, every statement, COMMIT) with that event failing, "
-              "once with the request cancelled just before it, and - for the handlers wrapped in the deadlock-retry loop - once with a synthetic deadlock error at k; oracle: error reported, "
+              "once with the request cancelled just before it, once with the request cancelled right after it completed (statements only; database/sql then rolls the transaction back on its own, so the next statement or the COMMIT meets a transaction that is gone - the report must still agree with what was stored), and - for the handlers wrapped in the deadlock-retry loop - once with a synthetic deadlock error at k; oracle: error reported, "
               "full dump of the five tables unchanged, no waiter notified, retry from the same clock/UUID state reproduces the fault-free dump byte for byte (deadlock: request succeeds with "
               "that same dump); non-trivial = the faulted event is a write or the commit and follows an earlier write in the same transaction; distinct by (state, operation, k, mode)"),
         assumptions=["faults are injected at the database/sql driver boundary (statement granularity); torn writes inside SQLite are SQLite's contract",
